@@ -1052,8 +1052,6 @@ impl ACol {
         }
     }
     fn is_agg(&self) -> bool { !matches!(self, ACol::Field(..)) }
-    /// the literal type a having filter on this column takes
-    fn lit_type(&self) -> FT { match self { ACol::Field(f, _) | ACol::Max(_, f) | ACol::Min(_, f) => AGG_FIELDS[*f].1, ACol::Count(_) => FT::Int, _ => FT::Flt } }
     fn enc(&self, v: &serde_json::Value, o: &mut Vec<i64>) {
         match self {
             ACol::Field(f, _) | ACol::Max(_, f) | ACol::Min(_, f) => json_to_val(v, AGG_FIELDS[*f].1).enc(o),
@@ -1132,12 +1130,10 @@ fn gen_agg_query(rng: &mut Rng) -> AQuery {
     let aggs: Vec<usize> = (0..cols.len()).filter(|k| cols[*k].is_agg()).collect();
     for _ in 0..*rng.pick(&[0usize, 0, 1, 1, 2]) {
         let k = *rng.pick(&aggs);
-        let v = match (&cols[k], cols[k].lit_type()) {
-            (ACol::Count(_), _) => Val::Int(rng.range(0, 3)),
-            (_, FT::Int) => Val::Int(*rng.pick(&[0i64, 2, 9, 10, 20, 100])),
-            (_, FT::Flt) => Val::Flt(*rng.pick(&[0i64, 4, 6, 10, 28, 40, 41, 36])),
-            (_, FT::Str) => Val::Str(rng.pick(&["a", "b", "10", "9"]).to_string()),
-            (_, FT::Bool) => Val::Bool(true),
+        // every aggregate column is typed Float by the parser: a having filter takes a number, whatever the field
+        let v = match &cols[k] {
+            ACol::Count(_) => Val::Int(rng.range(0, 3)),
+            _ => if rng.chance(1, 2) { Val::Int(*rng.pick(&[0i64, 2, 9, 10, 20, 100])) } else { Val::Flt(*rng.pick(&[0i64, 4, 6, 10, 28, 40, 41, 36])) },
         };
         having.push((k, rng.below(6) as usize, v));
     }
